@@ -275,7 +275,8 @@ class Parser:
         if not tok:
             return scanner.Buffer([defs.VoidToken(start)])
         if type(tok) is defs.ParagraphToken:
-            return scanner.Buffer([defs.VoidToken(tok.pos)])
+            # NB: the paragraph break is not part of the macro call
+            return scanner.Buffer([defs.VoidToken(start)])
         if end == '}' and tok.txt != '{':
             # consume single token
             buf.next()
@@ -335,8 +336,9 @@ class Parser:
             arg_extr = arg = []
             delim = False
             tok = buf.skip_space()
-            if tok and (code == 'A' or code == 'O' and tok.txt == '['
-                                        or code == '*' and tok.txt == '*'):
+            if (tok and type(tok) is not defs.ParagraphToken
+                    and (code == 'A' or code == 'O' and tok.txt == '['
+                                        or code == '*' and tok.txt == '*')):
                 # NB: if an optional argument is absent, then the next token
                 # is not part of the macro call
                 pos = tok.pos
